@@ -99,7 +99,7 @@ Definition in_stag (s : stag) (z : Z) : bool :=
   | SU64 | SF64 => (0 <=? z) && (z <? two64)
   | SI64 => (i64_min <=? z) && (z <=? i64_max)
   | SF128 => (- (two64 * two64 / 2) <=? z) && (z <? two64 * two64 / 2)
-  | SChar8 => (0 <=? z) && (z <? 128)         (* ASCII; see utf8 below *)
+  | SChar8 => (0 <=? z) && (z <? 256)         (* the chars one octet can carry (ISO 8859-1) *)
   end.
 
 (* ------------------------------------------------------------- CdrWriter *)
@@ -118,18 +118,11 @@ Fixpoint be_bytes (n : nat) (z : Z) : list Z :=
   | S k => (z / 2 ^ (8 * Z.of_nat k)) mod 256 :: be_bytes k z
   end.
 
-(* char::to_string().as_bytes() *)
-Definition utf8 (c : Z) : list Z :=
-  if c <? 128 then [c]
-  else if c <? 2048 then [192 + c / 64; 128 + c mod 64]
-  else if c <? 65536 then [224 + c / 4096; 128 + (c / 64) mod 64; 128 + c mod 64]
-  else [240 + c / 262144; 128 + (c / 4096) mod 64; 128 + (c / 64) mod 64; 128 + c mod 64].
-
 (* AsBytes *)
 Definition prim_bytes (s : stag) (z : Z) : list Z :=
   match s with
   | SBool => [if z =? 0 then 0 else 1]
-  | SChar8 => utf8 z
+  | SChar8 => [wrap_u8 z]                  (* `*self as u32 as u8`: one octet *)
   | _ => be_bytes (Z.to_nat (ssize s)) z
   end.
 
